@@ -747,24 +747,27 @@ pub fn run_case(tape: &mut Tape, _tier: Tier, _p: &CaseParams) -> CaseOutcome {
         .filter_map(|l| l.served.as_ref().map(|b| sha256_hex(b)))
         .collect();
       if !served_sums.contains(c) {
-        let bom = r1.loads.iter().any(|l| {
-          l.final_url.as_deref() == Some(u.as_str())
-            && l.served.as_ref().is_some_and(|b| b.starts_with(&[0xEF, 0xBB, 0xBF]))
-        });
+        // (classified by the answers that preceded the call, like the sums;
+        // a transcoded answer explains the mismatch whatever else was served)
+        let preceding = |pred: &dyn Fn(&[u8]) -> bool| {
+          r1.loads.iter().any(|l| {
+            l.seq < *seq
+              && l.final_url.as_deref() == Some(u.as_str())
+              && l.served.as_ref().is_some_and(|b| pred(b))
+          })
+        };
+        let transcoded =
+          preceding(&|b| std::str::from_utf8(b).is_err() || b.contains(&0));
+        let bom = preceding(&|b| b.starts_with(&[0xEF, 0xBB, 0xBF]));
         out.violation(
           "C05",
           "new-checksums-recorded",
           format!(
             "recorded-checksum-is-not-of-the-served-bytes{}",
-            if bom {
-              ":utf8-bom"
-            } else if r1.loads.iter().any(|l| {
-              l.final_url.as_deref() == Some(u.as_str())
-                && l.served.as_ref().is_some_and(|b| {
-                  std::str::from_utf8(b).is_err() || b.contains(&0)
-                })
-            }) {
+            if transcoded {
               ":transcoded-content"
+            } else if bom {
+              ":utf8-bom"
             } else {
               ""
             }
@@ -1012,7 +1015,12 @@ pub fn run_case(tape: &mut Tape, _tier: Tier, _p: &CaseParams) -> CaseOutcome {
       }
       v
     };
-    if let Some((path, a, b)) = first_diff(&strip(&r1.obs), &strip(&r2.obs)) {
+    // (with a divergent alias the two builds may legitimately use different
+    // bytes for one final specifier, see above)
+    out.count("record_then_verify_skipped_divergent_alias", !divergent.is_empty() as u64);
+    if let Some((path, a, b)) = first_diff(&strip(&r1.obs), &strip(&r2.obs))
+      .filter(|_| divergent.is_empty())
+    {
       out.violation(
         "C05",
         "record-then-verify",
